@@ -21,14 +21,14 @@ type c12Case struct {
 	E      int64 // publisher expiry seconds, -1 absent
 	M      int64 // configured maximum lifetime seconds, 0 none
 	mode   int   // 0 online, 1 offline then reconnect, 2 window full
-	W      int64 // waiting seconds
+	W      int64 // waiting time in milliseconds
 	qos    byte
 }
 
 var c12Modes = []string{"online", "offline-then-reconnect", "window-full"}
 
 func (k c12Case) String() string {
-	return fmt.Sprintf("pub-v%d sub-v%d E=%d M=%d mode=%s W=%d q%d", k.pubVer, k.subVer, k.E, k.M, c12Modes[k.mode], k.W, k.qos)
+	return fmt.Sprintf("pub-v%d sub-v%d E=%d M=%d mode=%s W=%dms q%d", k.pubVer, k.subVer, k.E, k.M, c12Modes[k.mode], k.W, k.qos)
 }
 
 // lifetime returns the message lifetime in seconds, -1 if it never expires.
@@ -44,7 +44,7 @@ func (k c12Case) lifetime() int64 {
 
 func c12Run(c *explore.Ctx, k c12Case) {
 	cas := func() any {
-		return map[string]any{"case": k.String(), "pv": k.pubVer, "sv": k.subVer, "E": k.E, "M": k.M, "mode": k.mode, "W": k.W, "q": k.qos}
+		return map[string]any{"case": k.String(), "pv": k.pubVer, "sv": k.subVer, "E": k.E, "M": k.M, "mode": k.mode, "Wms": k.W, "q": k.qos}
 	}
 	c.Count("executions", 1)
 	c.Count("states", 1)
@@ -113,7 +113,7 @@ func c12Run(c *explore.Ctx, k c12Case) {
 		}
 		publish("msg", true)
 		if k.W > 0 {
-			vsched.Advance(time.Duration(k.W) * time.Second)
+			vsched.Advance(time.Duration(k.W) * time.Millisecond)
 		}
 		switch k.mode {
 		case 1:
@@ -133,8 +133,9 @@ func c12Run(c *explore.Ctx, k c12Case) {
 			}
 		}
 		L := k.lifetime()
-		expired := L >= 0 && k.W >= L+1
-		alive := L < 0 || k.W <= L-1 || k.W == 0
+		expired := L >= 0 && k.W > L*1000
+		alive := L < 0 || k.W < L*1000 || k.W == 0
+		wLo, wHi := k.W/1000, (k.W+999)/1000 // whole seconds waited, rounded down / up
 		drops := 0
 		for _, d := range w.Drops {
 			if d.Payload == "msg" && strings.Contains(d.Err, "expired") {
@@ -151,7 +152,7 @@ func c12Run(c *explore.Ctx, k c12Case) {
 				} else if k.E < 0 || k.pubVer != refmqtt.V5 {
 					cl += "-configured-maximum-only"
 				}
-				c.Violate("expiry", cl+"-"+c12Modes[k.mode], cas(), "not delivered (lifetime "+fmt.Sprint(L)+"s, waited "+fmt.Sprint(k.W)+"s)", got[0].String())
+				c.Violate("expiry", cl+"-"+c12Modes[k.mode], cas(), "not delivered (lifetime "+fmt.Sprint(L)+"s, waited "+fmt.Sprint(k.W)+"ms)", got[0].String())
 				return
 			}
 			if drops != 1 {
@@ -170,19 +171,26 @@ func c12Run(c *explore.Ctx, k c12Case) {
 			if k.subVer == refmqtt.V5 && k.E > 0 && k.pubVer == refmqtt.V5 {
 				pk := got[0]
 				if pk.Props == nil || pk.Props.MessageExpiry == nil {
-					c.Violate("remaining-lifetime", "property-absent-"+c12Modes[k.mode], cas(), fmt.Sprintf("Message Expiry Interval %d", k.E-k.W), "absent")
+					c.Violate("remaining-lifetime", "property-absent-"+c12Modes[k.mode], cas(), fmt.Sprintf("Message Expiry Interval %d", k.E-wLo), "absent")
 					return
 				}
 				v := int64(*pk.Props.MessageExpiry)
-				ok := v == k.E-k.W || (capped && v == k.M-k.W)
+				// original minus the whole seconds waited; a wait with a fraction may be counted
+				// down or up, but the forwarded value is never 0 and never ignores whole seconds
+				ok := v == k.E-wLo || (v == k.E-wHi && v >= 1) || (capped && (v == k.M-wLo || (v == k.M-wHi && v >= 1)))
 				if !ok {
 					cl := "wrong-value"
-					if v == k.W {
+					if v == wLo && wLo > 0 {
 						cl = "value-is-elapsed-time"
 					} else if v > k.E {
 						cl = "value-above-original"
+					} else if v > k.E-wLo {
+						cl = "value-ignores-whole-seconds-waited"
 					}
-					c.Violate("remaining-lifetime", cl+"-"+c12Modes[k.mode], cas(), fmt.Sprint(k.E-k.W), fmt.Sprint(v))
+					if k.W%1000 != 0 {
+						cl += "-fractional-wait"
+					}
+					c.Violate("remaining-lifetime", cl+"-"+c12Modes[k.mode], cas(), fmt.Sprintf("%d (or %d)", k.E-wLo, k.E-wHi), fmt.Sprint(v))
 					return
 				}
 			}
@@ -196,11 +204,11 @@ func c12Run(c *explore.Ctx, k c12Case) {
 
 func runC12(c *explore.Ctx) {
 	c.Level = "model_checking"
-	c.Rule = "E2 (virtual clock): the full grid publisher version x subscriber version x Message Expiry Interval {absent,2,5,100} x configured maximum {none,3s,10s} x waiting mode {online, offline then reconnect, in-flight window full} x waiting time {0, L-1, L+1, L+30} (L = lifetime) x QoS, each on a fresh in-process broker: after the wait the message must be delivered exactly once (W <= L-1) with Message Expiry Interval = original - waited, or not delivered and reported dropped as expired exactly once (W >= L+1). states = grid points."
+	c.Rule = "E2 (virtual clock): the full grid publisher version x subscriber version x Message Expiry Interval {absent,2,5,100} x configured maximum {none,3s,10s} x waiting mode {online, offline then reconnect, in-flight window full} x waiting time {0, 0.6s, 1.4s, L-1, L-0.6s, L-0.4s, L+0.4s, L+1, L+30} (L = lifetime) x QoS, each on a fresh in-process broker: after the wait the message must be delivered exactly once (W < L) with Message Expiry Interval = original - whole seconds waited (a fraction may count down or up, never to 0), or not delivered and reported dropped as expired exactly once (W > L). states = grid points."
 	c.Trusted = []string{"vsched virtual clock", "refmqtt codec"}
-	c.Assumptions = []string{"for E above the configured maximum both E-W and M-W are accepted as forwarded value", "W == L (boundary second) is not generated"}
+	c.Assumptions = []string{"for E above the configured maximum both E-W and M-W are accepted as forwarded value", "W == L (the boundary instant) is not generated"}
 	if rc := replayCase(c); rc != nil {
-		c12Run(c, c12Case{byte(rc["pv"].(float64)), byte(rc["sv"].(float64)), int64(rc["E"].(float64)), int64(rc["M"].(float64)), int(rc["mode"].(float64)), int64(rc["W"].(float64)), byte(rc["q"].(float64))})
+		c12Run(c, c12Case{byte(rc["pv"].(float64)), byte(rc["sv"].(float64)), int64(rc["E"].(float64)), int64(rc["M"].(float64)), int(rc["mode"].(float64)), int64(rc["Wms"].(float64)), byte(rc["q"].(float64))})
 		return
 	}
 	var cases []c12Case
@@ -224,15 +232,17 @@ func runC12(c *explore.Ctx) {
 							ws := []int64{0}
 							if mode != 0 {
 								if L >= 0 {
-									ws = []int64{0, L - 1, L + 1, L + 30}
+									ws = []int64{0, 600, 1400, (L - 1) * 1000, L*1000 - 600, L*1000 - 400, L*1000 + 400, (L + 1) * 1000, (L + 30) * 1000}
 								} else {
-									ws = []int64{0, 30}
+									ws = []int64{0, 600, 30000}
 								}
 							}
+							seenW := map[int64]bool{}
 							for _, W := range ws {
-								if W < 0 {
+								if W < 0 || seenW[W] {
 									continue
 								}
+								seenW[W] = true
 								k.W = W
 								cases = append(cases, k)
 							}
